@@ -43,6 +43,13 @@ func (c19) Gen(r *rand.Rand, tier string, run int) *core.Case {
 	c.Params["addr_order"] = r.IntN(2)
 	c.Params["subscribe"] = r.IntN(2)
 	n := 2 + r.IntN(5)
+	if r.IntN(8) == 0 {
+		// "any number of goroutines": more of them than the server queues
+		// calls for one connection
+		c.Batch = "many-goroutines"
+		n = 12 + r.IntN(8)
+		c.Params["many"] = 1
+	}
 	for g := 0; g < n; g++ {
 		k := 1 + r.IntN(2)
 		for i := 0; i < k; i++ {
@@ -54,7 +61,7 @@ func (c19) Gen(r *rand.Rand, tier string, run int) *core.Case {
 	// connection to one endpoint is reset by its server (the session must
 	// notice, forget the dead connection and dial again), and / or a service
 	// registered after the session was created must be reachable through it
-	if r.IntN(3) == 0 {
+	if c.Batch == "" && r.IntN(3) == 0 {
 		c.Batch = "second-phase"
 		c.Params["break"] = r.IntN(3)       // 0 no; 1 reset, then quiescence; 2 reset racing with the requests
 		c.Params["break_addr"] = r.IntN(servers + 1)
@@ -313,6 +320,10 @@ func (c19) Check(c *core.Case, env *core.Env, res zzsim.Result, v *core.Verdict)
 			idx, _ := strconv.Atoi(strings.TrimPrefix(name, "Probe"))
 			if st.racing && h.Client > 100 && h.Call >= st.phase2 && name != "ProbeLate" && idx < len(st.addrs) && st.addrs[idx] == st.broken {
 				env.Probe("request-failed-while-racing-with-reset")
+			} else if c.P("many", 0) == 1 && strings.Contains(h.Err, "message dropped: consumer blocked") {
+				// cause-specific (known finding): the server said that it shed
+				// the request because ten others of the connection were queued
+				bad("request-shed-by-full-queue", "more goroutines than the server queues calls for one connection share the session's connection, and one of their requests was shed: %s", h)
 			} else {
 				bad(h.Kind+"-failed", "a request for a registered service failed: %s", h)
 			}
